@@ -388,7 +388,9 @@ def check_number_printer(ctx):
     from ..lexmodel import master_for
     enc, steps, site = C04.encoder_model(ctx)
     master = master_for(load_dialect(ctx.src, 'mindsdb').lexer)
-    values = [0, 7, -1, 10 ** 20, 1.5, -2.25, 0.1, 1e-07, -3.5e-09, 1.5e+300, 1e+16, 123456789.123, True, False]
+    values = [0, 7, -1, 10 ** 20, 1.5, -2.25, 0.1, 1e-07, -3.5e-09, 1.5e+300, 1e+16, 123456789.123, True, False,
+              # many significant digits far behind the point, the smallest / largest doubles, values next to a power of ten
+              1.2345678e-12, 2.5e-20, 5e-324, 1.7976931348623157e+308, 0.30000000000000004, 9.999999999999999e-05, 1.0000000000000002, 123456789012345680.0, -4.9e-30]
     ctx.setcount('number_probes', len(values))
     for v in values:
         text = enc(v)
